@@ -50,6 +50,7 @@ TRANSPARENT_CALLS = {
 
 
 _IMPL = re.compile(r"\{impl#\d+\}")
+PROGRAM = None        # set by facts.load(): lets constant operands be resolved through promoted bodies
 
 
 def norm(defpath):
@@ -143,6 +144,13 @@ class Prov:
         if "static" in k:
             return {("static", k["static"])}
         txt = k.get("const", "")
+        m = re.search(r"promoted\[(\d+)\]$", txt)
+        if m and PROGRAM is not None:
+            # a promoted temporary (`&"literal"`): its value is the constant its own small body computes
+            owner = self.fn.get("promoted_of") or self.fn.name
+            pf = PROGRAM.fns.get("%s::promoted[%s]" % (owner, m.group(1)))
+            if pf is not None and pf is not self.fn:
+                return set(flatten(Prov(pf).trace_local(0))) or {("const", txt)}
         return {("const", txt)}
 
     def trace_place(self, place, depth=0):
